@@ -852,6 +852,58 @@ def _decide_translation_sites(chk, F, rid, m, pans, plan, attrs):
             chk.fail(rid, inst, "panic while evaluating %s::pk: %s" % (T, e), where=pan[0][1])
 
 
+# ---- R11.15 a policy whose Huffman tree is deeper than a control block allows ----------------------------------------------
+
+def check_huffman_depth(chk, F, rid="R11.15"):
+    from ..builtins import deref
+    from fractions import Fraction
+    chk.rule(rid, "the taproot compilers' Huffman tree builder (with_huffman_tree, fed by compile_tr / compile_tr_native / "
+                  "compile_tr_private_experimental with the odds the policy text gives) does not panic when the odds make the tree "
+                  "deeper than the 128 levels a control block can prove - a plain chain of 131 nested `or`s does: it returns a tree "
+                  "whose leaves are all at depth <= 128 and whose depths are those of a full binary tree, or an error")
+    try:
+        hf = F.fn("with_huffman_tree", file="policy/concrete.rs")
+    except KeyError as e:
+        chk.fail(rid, "anchor", "missing anchor %s" % e, kind="unanalysable")
+        return
+    chk.saw(hf)
+    callers = [q for q, b in F.bodies.items() if b.get("mir") and any(
+        ((blk.get("term") or {}).get("func") or {}).get("fn", {}).get("def", "").endswith("::with_huffman_tree")
+        for blk in b["mir"]["blocks"])]
+    chk.floor(rid, "callers of with_huffman_tree", len(callers), 3)
+    OF = "policy::compiler::OrdF64"
+    n = 0
+    for k in (1, 2, 3, 64, 128, 129, 130, 131, 140):
+        # the odds of a right-leaning chain of `or`s: 1/2, 1/4, ..., the last two equal
+        ws = [2.0 ** -(i + 1) for i in range(k - 1)] + [2.0 ** -(k - 1)]
+        leaves = PyVec([(Adt(OF, "OrdF64", {"0": w}), ("leaf", i)) for i, w in enumerate(ws)])
+        m = Machine(F, strict=True)
+        m.max_steps = 50_000_000
+        n += 1
+        try:
+            r = m.call_callee({"def": hf, "resolved": hf, "name": "with_huffman_tree", "targs": ["PK"]}, [leaves])
+        except Unsupported as e:
+            chk.fail(rid, "unanalysable:%d" % k, "unanalysable: %s" % e, where=e.where, kind="unanalysable")
+            continue
+        except Panic as e:
+            chk.fail(rid, "chain-%d" % k, "a chain of %d alternatives with halving odds makes with_huffman_tree panic: %s"
+                     % (k, str(e)[:160]), F.fns[hf]["span"])
+            continue
+        r = deref(r)
+        if isinstance(r, Adt) and r.path.endswith("Result"):
+            if r.variant == "Err":
+                chk.obligation(rid, k > 129, "chain-%d" % k, "a chain of %d alternatives (depth %d) is refused: %r" % (k, k - 1, r),
+                               F.fns[hf]["span"])
+                continue
+            r = deref(r.fields["0"])
+        depths = [deref(deref(x)[0]) for x in deref(r.fields["depths_leaves"]).items]
+        kraft = sum(Fraction(1, 2 ** d) for d in depths)
+        good = len(depths) == k and max(depths) <= 128 and kraft == 1
+        chk.obligation(rid, good, "chain-%d" % k, "a chain of %d alternatives gives leaf depths with maximum %d, Kraft sum %s"
+                       % (k, max(depths), kraft), F.fns[hf]["span"])
+    chk.floor(rid, "chains", n, 9)
+
+
 def run(chk):
     F = chk.facts()
     chk.explanation = __doc__
@@ -892,3 +944,4 @@ def run(chk):
         # Satisfaction::satisfy's expect("the same satisfier should manage to complete the template") cannot fire (shared with C17)
         chk.guard("R11.13", "template-completable", c17.check_template_completable, chk, F, "R11.13")
         chk.guard("R11.14", "translator-expects", check_translator_expects, chk, F)
+        chk.guard("R11.15", "huffman-depth", check_huffman_depth, chk, F)
